@@ -66,12 +66,12 @@ def run(chk, tier, seed):
     for k in range(nimg):
         enc, ntr, spt = geoms[k % len(geoms)]
         fmt = ["hfe1", "hfe3", "mfm"][(k // len(geoms)) % 3] if enc == "MFM" else ["hfe1", "hfe3"][(k // len(geoms)) % 2]
-        two = (k % 7 == 3) and fmt != "mfm"
+        two = (k % 3 == 1) and fmt != "mfm"
         jobs.append((k, enc, ntr, spt, fmt, two))
     # opcode placement sweep on a small FM image: every TLC placement mapped to real block positions
     pl_jobs = placements if not quick else placements[::6]
     with common.Scratch("c05") as scratch:
-        def make(job, tag, ops=None, plain=False):
+        def make(job, tag, ops=None, plain=False, fixed=None):
             k, enc, ntr, spt, fmt, two = job
             rr = random.Random(seed * 131 + k)
             img0, ents = disc_image(k, spt, ntr, rr)
@@ -87,6 +87,8 @@ def run(chk, tier, seed):
             skew = rr.choice([0, 0, 3, 7])
             if plain:
                 order, gaps, skew = list(range(spt)), {}, 0
+            if fixed:
+                order, gaps, skew = list(range(spt)), fixed, 0
             path = os.path.join(scratch, "%s.%s" % (tag, "mfm" if fmt == "mfm" else "hfe"))
             flat = b"".join(bytes(s) for s in sides)
             if ops is None and fmt == "hfe3":
@@ -97,7 +99,7 @@ def run(chk, tier, seed):
                     return [x for x in o if 0 <= x[0] < n]
                 ops = ops_fn
             mkflux.image_to_flux(flat, ntr, spt, enc, "mfm" if fmt == "mfm" else "hfe", path, nsides=len(sides), order=order, gaps=gaps,
-                                 ops=ops, version=3 if fmt == "hfe3" else 1, skew=skew)
+                                 ops=ops, version=3 if fmt == "hfe3" else 1, skew=skew, exact_len=(k % 2 == 1 or fixed is not None))
             # the equivalent sector dump (16-sector discs are taken for 18-sector ones by the probe; file-level commands still agree)
             ext = "ssd" if enc == "FM" else "sdd"
             dumps = []
@@ -119,7 +121,14 @@ def run(chk, tier, seed):
                     # the dump of side si attached alone is drive 0
                     cmd_d = [c.replace(":2.", ":0.") if c.startswith(":2.") else ("0" if c == "2" and i == 1 else c) for i, c in enumerate(cmd)]
                     od = common.run([dfs, "--file", dp] + cmd_d, timeout=60)
-                    outf = of.out.replace(b":2.", b":0.").replace(b"Drive 2", b"Drive 0").replace(b"2: ", b"0: ").replace(b"on disc 2", b"on disc 0") if si == 1 else of.out
+                    outf = of.out
+                    if si == 1:        # the same surface is drive 2 in the flux image and drive 0 when its dump is attached alone
+                        if cmd[0] == "cat":
+                            outf = outf.replace(b"Drive 2", b"Drive 0")
+                        elif cmd[0] == "show-titles":
+                            outf = outf.replace(b"2: ", b"0: ", 1)
+                        elif cmd[0] == "space":
+                            outf = outf.replace(b"on disc 2", b"on disc 0")
                     evs.append(dict(e="equiv", tag=tag, fmt=fmt, enc=enc, spt=spt, ntr=ntr, side=si, cmd=cmd[:2], same=1 if (outf == od.out and of.rc == od.rc) else 0,
                                     rc_flux=of.rc if of.rc is not None else -9, rc_dump=od.rc if od.rc is not None else -9,
                                     clean=1 if of.ok_alphabet() else 0, extra=extra or {}, err=of.err.decode("latin1")[:160]))
@@ -170,7 +179,17 @@ def run(chk, tier, seed):
             for p in [path] + dumps:
                 os.unlink(p)
             return evs
-        res = common.pmap(do, jobs) + common.pmap(do_placement, list(enumerate(pl_jobs))) + common.pmap(do_skip, list(range(2 if quick else 8)))
+        def do_pad(g1):
+            # two-sided image, unpadded LUT length, minimal trailing gaps: the end of side 1's last block matters
+            job = (9000 + g1, "FM", 40, 10, "hfe1", True)
+            tag = "pad%d" % g1
+            path, dumps, entss, params = make(job, tag, fixed=dict(gap1=g1, gap2=None, gap3=3, gap4=0, sync=None))
+            evs = compare(job, path, dumps, entss, tag, dict(pad_gap1=g1))
+            for p in [path] + dumps:
+                os.unlink(p)
+            return evs
+        pads = list(range(0, 64, 8 if quick else 1))
+        res = common.pmap(do_pad, pads) + common.pmap(do, jobs) + common.pmap(do_placement, list(enumerate(pl_jobs))) + common.pmap(do_skip, list(range(2 if quick else 8)))
         events = [e for evs in res for e in evs]
         for e in events:
             chk.case((e["tag"], tuple(e["cmd"]), e["side"]), nontrivial=e["cmd"][0] not in ("cat", "show-titles", "free"))
